@@ -426,9 +426,35 @@ def check_caps_file(ip, ctx, out):
     return [(nm.replace('pt/caps', 'pt/caps-file-equals-in-memory'), ok, info) for nm, ok, info in obs]
 
 
+def build_get_mpo_file(rank, with_in, with_out, transformed=True):
+    def build(ip, repo):
+        t = TArr.sym('t', rank)
+        tin = TArr.sym('Tin', 2) if with_in else None
+        tout = TArr.sym('Tout', 2) if with_out else None
+        o = pt_obj(repo, 'process_tensor.FileProcessTensor', None, tin, tout)
+        o.fields.update(_mpo_tensors_data=Obj('TDS', {'items': [t]}), _mpo_tensors_shape=Obj('TDS', {'items': [t]}))
+        return [o, 0] + ([] if transformed else [False]), {}, {'rank': rank, 'in': with_in, 'out': with_out, 'transformed': transformed}
+    return build
+
+
+def check_get_mpo_file(ip, ctx, out):
+    if ctx['transformed'] is False:
+        # the file-backed accessor returns the stored tensor as it is when transformed=False
+        kind, val = out
+        return [('view/file-raw-tensor', kind == 'return' and equal(val, TArr.sym('t', ctx['rank'])), {})]
+    return [(nm.replace('pt/', 'view/file-'), ok, info) for nm, ok, info in check_get_mpo(ip, ctx, out)]
+
+
 def targets_file(prop):
     T = []
     R = file_registry()
+    for rank in (3, 4):
+        for wi in (False, True):
+            for wo in (False, True):
+                T.append(WireTarget('view/mpo-accessor-equal[file,rank=%d,in=%s,out=%s]' % (rank, wi, wo), 'process_tensor.FileProcessTensor.get_mpo_tensor',
+                                    build_get_mpo_file(rank, wi, wo), check_get_mpo_file, prop, registry=R))
+        T.append(WireTarget('view/mpo-accessor[file,rank=%d,untransformed]' % rank, 'process_tensor.FileProcessTensor.get_mpo_tensor',
+                            build_get_mpo_file(rank, True, True, transformed=False), check_get_mpo_file, prop, registry=R))
     for ranks in ((4,), (3,), (4, 4), (3, 4)):
         for wt in (False, True):
             T.append(WireTarget('pt/file-compute_caps%s[transforms=%s]' % (list(ranks), wt), 'process_tensor.FileProcessTensor.compute_caps',
